@@ -759,6 +759,11 @@ pub(crate) fn check_if_response_is_matched(
             .count();
         let last_n_count = total_count - before_boundary_count;
         if last_n_count > last_n_blocks {
+            if before_boundary_count < reorg_count {
+                let errmsg = "failed to verify reorg last n headers \
+                    since their total difficulties reach the difficulty boundary";
+                return Err(StatusCode::InvalidReorgHeaders.with_context(errmsg));
+            }
             (before_boundary_count - reorg_count, last_n_count)
         } else {
             (total_count - reorg_count - last_n_blocks, last_n_blocks)
@@ -774,7 +779,7 @@ pub(crate) fn check_if_response_is_matched(
             let last_last_n_header_number = headers[headers.len() - 1].header().number();
             let last_number = last_header.header().number();
             if first_last_n_header_number != start_number
-                || last_last_n_header_number + 1 != last_number
+                || last_last_n_header_number.checked_add(1) != Some(last_number)
             {
                 let errmsg = format!(
                 "there should be all blocks of [{}, {}) since no sampled blocks, but got [{}, {}]",
@@ -1121,8 +1126,14 @@ pub(crate) fn verify_mmr_proof<'a, T: Iterator<Item = &'a HeaderView>>(
         return Err(StatusCode::InvalidProof.with_context(errmsg));
     };
     let parent_chain_root = last_header.parent_chain_root();
+    let end_number: BlockNumber = parent_chain_root.end_number().unpack();
+    // The size of a MMR with `end_number + 1` leaves has to fit into a `u64`.
+    if end_number >= u64::MAX / 2 {
+        let errmsg = format!("failed since the end number ({end_number}) of the chain root is too large");
+        return Err(StatusCode::InvalidProof.with_context(errmsg));
+    }
     let proof: MMRProof = {
-        let mmr_size = leaf_index_to_mmr_size(parent_chain_root.end_number().unpack());
+        let mmr_size = leaf_index_to_mmr_size(end_number);
         let proof = raw_proof
             .iter()
             .map(|header_digest| header_digest.to_entity())
@@ -1134,6 +1145,12 @@ pub(crate) fn verify_mmr_proof<'a, T: Iterator<Item = &'a HeaderView>>(
         let res = headers
             .map(|header| {
                 let index = header.number();
+                if index > end_number {
+                    let errmsg = format!(
+                        "block#{index} is not covered by the chain root (end at {end_number})"
+                    );
+                    return Err(errmsg);
+                }
                 let position = leaf_index_to_pos(index);
                 let digest = header.digest();
                 digest.verify()?;
